@@ -105,8 +105,8 @@ NDivMod(a, b) ==
       qr == DivLoop(an, bn, Len(an), <<>>, <<>>)
   IN <<qr[1], IF f = 1 THEN qr[2] ELSE NDivSmall(qr[2], f)[1]>>
 
-RECURSIVE NPow10(_)
-NPow10(k) == IF k = 0 THEN <<1>> ELSE IF k >= 4 THEN <<0>> \o NPow10(k-4) ELSE NMulSmall(NPow10(k-1), 10)
+\* 10^k as limbs, built directly (TLC does not cache zero-arity definitions; keep constants cheap)
+NPow10(k) == [i \in 1..(k \div 4) |-> 0] \o << (CASE k % 4 = 0 -> 1 [] k % 4 = 1 -> 10 [] k % 4 = 2 -> 100 [] OTHER -> 1000) >>
 RECURSIVE NatLimbs(_)
 NatLimbs(n) == IF n = 0 THEN <<>> ELSE <<n % B>> \o NatLimbs(n \div B)
 \* number of decimal digits of a magnitude (0 for zero)
@@ -143,4 +143,7 @@ BIsEven(a) == a.s = 0 \/ a.m[1] % 2 = 0
 BMod5Is0(a) == a.s = 0 \/ a.m[1] % 5 = 0      \* B is divisible by 10
 BMod10(a) == IF a.s = 0 THEN 0 ELSE a.m[1] % 10  \* |a| mod 10
 BDigits(a) == NDigits(a.m)
+\* 2^127-1 and -2^127 as literals (checked against BPow2 by MC_BigInt)
+I128MaxLit == [s |-> 1, m |-> <<5727, 8410, 7158, 7303, 3168, 2317, 469, 8346, 1411, 170>>]
+I128MinLit == [s |-> -1, m |-> <<5728, 8410, 7158, 7303, 3168, 2317, 469, 8346, 1411, 170>>]
 =======================================================================
